@@ -3,6 +3,7 @@ import PpciVerif.Model.Peephole
 import PpciVerif.Model.FrameAlloc
 import PpciVerif.Model.RVLi
 import PpciVerif.Model.ArgLoc
+import PpciVerif.Model.RVFrame
 /-!
 Line-protocol engine shared by `Drivers/C04.lean` and `Drivers/C05.lean` (kept in the library so the
 driver files elaborate instantly).  Stateful only for the RV32 machine (`rv*` operations).
@@ -20,6 +21,12 @@ dex <rd> <hex bytes>              decode (Spec.RV32.decode / decodeC by the low 
     | ok undecodable <position>
 args arm <ty,ty,…|->   |   args riscv <rvf:0|1> <ty,…|->      ty = i|f|b <tsize>/<isize>
     → ok <r<n> | f<n> | s<off>:<size>>,… distinct=<0|1>
+rvframe <stacksize> <extras> <saved regs|->   → ok <prologue instrs> | <epilogue instrs>      (Model.RVFrame, printed through toRV)
+decx <hex bytes>                              → ok <instr; …> with compressed instructions expanded | ok undecodable <pos>
+rvframerun <prologue hex> <epilogue hex> <ssize> <rsize> <extras rounded> <saved regs|->
+    real byte strings executed by Spec.RV32 around an adversarial body (every register but sp gets junk; all stack memory
+    except the bytes the prologue itself stored to is scribbled over; stores at or above the entry sp are reported)
+    → ok restored | ok broken <what>
 rvreset | rvmem <addr> <hex> | rvrun <entry> <fuel> <arg>* | rvdump <addr> <len>
     → ok | ok | ok ret=<x10> steps=<n> / ok fault <why> pc=<pc> steps=<n> / ok out-of-fuel | ok <hex>
 ```
@@ -169,10 +176,10 @@ def writeBack (m : PMem) (s' : State) (a : Nat) : Nat → PMem
   | 0 => m
   | n + 1 => writeBack (m.set a (s'.mem a)) s' (a + 1) n
 
-def runMach : Nat → Nat → Mach → Mach × RunR
+def runMach (stop : Nat := retMagic) : Nat → Nat → Mach → Mach × RunR
   | 0, _, m => (m, .fuel)
   | fuel + 1, steps, m =>
-    if m.pc == retMagic then (m, .done (m.regs.getD 10 0) steps) else
+    if m.pc == stop then (m, .done (m.regs.getD 10 0) steps) else
     if m.pc + 4 > memSize then (m, .fault "pc-outside-memory" m.pc steps) else
     let b0 := m.mem.get m.pc
     let b1 := m.mem.get (m.pc + 1)
@@ -196,7 +203,24 @@ def runMach : Nat → Nat → Mach → Mach × RunR
         let mem := match acc with
           | some (a, w, true) => writeBack m.mem s' a w
           | _ => m.mem
-        runMach fuel (steps + 1) { regs := regs, pc := s'.pc, mem := mem }
+        runMach stop fuel (steps + 1) { regs := regs, pc := s'.pc, mem := mem }
+
+/-- run until `stop`, one instruction at a time, collecting the byte addresses written by stores -/
+def runStores (stop : Nat) : Nat → Mach → List Nat → Mach × RunR × List Nat
+  | 0, m, acc => (m, .fuel, acc)
+  | fuel + 1, m, acc =>
+    if m.pc == stop then (m, .done 0 0, acc) else
+    let b0 := m.mem.get m.pc
+    let b1 := m.mem.get (m.pc + 1)
+    let ins : Option Instr :=
+      if b0 % 4 = 3 then decode (b0 + 256 * b1 + 65536 * m.mem.get (m.pc + 2) + 16777216 * m.mem.get (m.pc + 3))
+      else (decodeC (b0 + 256 * b1)).map (fun c => c.expand)
+    let acc' := match ins.bind (access m.toSpec) with
+      | some (a, w, true) => (List.range w).map (· + a) ++ acc
+      | _ => acc
+    match runMach (m.pc + 100000) 1 0 m with          -- exactly one step (the stop address is never reached)
+    | (m', .fuel) => runStores stop fuel m' acc'
+    | (m', r) => (m', r, acc')
 
 def loadBytes (m : PMem) (a : Nat) : List Nat → PMem
   | [] => m
@@ -258,6 +282,50 @@ def step' (m : Mach) (line : String) : Mach × String :=
     match list? aty? tys with
     | some l => let r := riscvArgs (rvf == "1") l; (m, s!"ok {showList locStr r} distinct={b2s (distinctB r)}")
     | none => (m, "bad-op")
+  | ["rvframe", ss, ex, regs] =>
+    match int? ss, int? ex, natList? (if regs == "-" then "[]" else "[" ++ regs ++ "]") with
+    | some ss, some ex, some rs =>
+      let sh (l : List Model.RVFrame.FI) := "; ".intercalate (l.map (fun i => pretty (Model.RVFrame.toRV i)))
+      (m, s!"ok {sh (Model.RVFrame.prologue ss ex rs)} | {sh (Model.RVFrame.epilogue ss ex rs)}")
+    | _, _, _ => (m, "bad-op")
+  | ["decx", h] =>
+    match fromHex h with
+    | some bs =>
+      match decodeStream (bs.length + 1) bs 0 with
+      | .error pos => (m, s!"ok undecodable {pos}")
+      | .ok p => (m, "ok " ++ "; ".intercalate (p.map (fun i => match i with | .b x => pretty x | .c c => pretty c.expand)))
+    | none => (m, "bad-op")
+  | ["rvframerun", ph, eh, ss, rs, er, regs] =>
+    match fromHex ph, fromHex eh, nat? ss, nat? rs, nat? er, natList? (if regs == "-" then "[]" else "[" ++ regs ++ "]") with
+    | some pb, some eb, some ssz, some rsz, some _erz, some saved =>
+      let sp0 := 0xE000
+      let mark (i : Nat) : Nat := 0x40000000 + i * 0x01010101 % 0x1000000
+      let regs0 := ((Array.ofFn (n := 32) (fun k => mark k.val)).setIfInBounds 1 retMagic).setIfInBounds 2 sp0
+      let pat (a : Nat) : Nat := (a * 7 + 3) % 256
+      let mem0 := (List.range (0xF000 - 0xC000)).foldl (fun mm k => PMem.set mm (0xC000 + k) (pat (0xC000 + k))) Mach.init.mem
+      let mem1 := loadBytes (loadBytes mem0 0x1000 pb) 0x1800 eb
+      let (m1, r1, stored) := runStores (0x1000 + pb.length) 400 { regs := regs0, pc := 0x1000, mem := mem1 } []
+      match r1 with
+      | .done _ _ =>
+        -- the adversarial body: junk in every register but sp, every stack byte the prologue did not store to is overwritten
+        let _unused := (ssz, rsz)
+        let regsB := (Array.ofFn (n := 32) (fun k => if k.val == 2 then m1.regs.getD 2 0 else 0xDEAD0000 + k.val))
+        let memB := (List.range (sp0 - 0xC000)).foldl
+          (fun mm k => let a := 0xC000 + k; if stored.contains a then mm else PMem.set mm a ((a * 13 + 5) % 256)) m1.mem
+        let (m2, r2) := runMach retMagic 400 0 { regs := regsB, pc := 0x1800, mem := memB }
+        match r2 with
+        | .done _ _ =>
+          let badRegs := ([2, 8] ++ saved).filter (fun r => m2.regs.getD r 0 != regs0.getD r 0)
+          let badMem := (List.range (0xF000 - sp0)).any (fun k => m2.mem.get (sp0 + k) != pat (sp0 + k))
+          if stored.any (fun a => a ≥ sp0) then (m, "ok broken prologue-writes-above-entry-sp")
+          else if !badRegs.isEmpty then (m, s!"ok broken registers-not-restored:{showNatList badRegs}")
+          else if badMem then (m, "ok broken caller-stack-overwritten")
+          else (m, "ok restored")
+        | .fault why pc _ => (m, s!"ok broken epilogue-fault:{why}@{pc}")
+        | .fuel => (m, "ok broken epilogue-does-not-return-to-ra")
+      | .fault why pc _ => (m, s!"ok broken prologue-fault:{why}@{pc}")
+      | .fuel => (m, "ok broken prologue-runs-away")
+    | _, _, _, _, _, _ => (m, "bad-op")
   | ["rvreset"] => (Mach.init, "ok")
   | ["rvmem", a, h] =>
     match nat? a, fromHex h with
@@ -269,7 +337,7 @@ def step' (m : Mach) (line : String) : Mach × String :=
     | some e, some f, some as =>
       let regs := (Array.replicate 32 0).setIfInBounds 1 retMagic |>.setIfInBounds 2 spInit |>.setIfInBounds 8 spInit
       let m0 : Mach := { regs := setArgs regs 12 as, pc := e, mem := m.mem }
-      let (m1, r) := runMach f 0 m0
+      let (m1, r) := runMach retMagic f 0 m0
       (m1, match r with
         | .done ret steps => s!"ok ret={ret} steps={steps}"
         | .fault why pc steps => s!"ok fault {why} pc={pc} steps={steps}"
